@@ -73,10 +73,19 @@ fn check_all(d: &Decl, body: &[&str]) -> Vec<String> {
                 if !lines[0].contains(doc.summary.as_str()) {
                     errs.push(format!("list line of {:?} lacks its summary {:?}", v.name, doc.summary));
                 }
+                if let Some(p) = foreign_paragraph(lines[0], doc) {
+                    errs.push(format!("list line of {:?} carries more than its summary: paragraph {:?}", v.name, p));
+                }
             }
         }
     }
     errs
+}
+
+/// A line that carries a summary carries the *summary*: text of a later paragraph of the same doc comment on it means the
+/// paragraphs were run together (layout is not pinned by this: no paragraph of the declaration is part of another)
+fn foreign_paragraph<'a>(l: &str, doc: &'a vmodel::decl::DocM) -> Option<&'a String> {
+    doc.paragraphs.iter().skip(1).find(|p| l.contains(p.as_str()))
 }
 
 fn check_command(d: &Decl, path: &[String], v: &VariantM, body: &[&str]) -> Vec<String> {
@@ -85,6 +94,14 @@ fn check_command(d: &Decl, path: &[String], v: &VariantM, body: &[&str]) -> Vec<
         for p in &doc.paragraphs {
             if !body.iter().any(|l| l.contains(p.as_str())) {
                 errs.push(format!("description paragraph {:?} is missing", p));
+            }
+        }
+        // paragraphs stay paragraphs: no output line holds two of them
+        for (i, p) in doc.paragraphs.iter().enumerate() {
+            for q in doc.paragraphs.iter().skip(i + 1) {
+                if body.iter().any(|l| l.contains(p.as_str()) && l.contains(q.as_str())) {
+                    errs.push(format!("description paragraphs {:?} and {:?} are run together on one line", p, q));
+                }
             }
         }
     }
@@ -118,7 +135,7 @@ fn check_command(d: &Decl, path: &[String], v: &VariantM, body: &[&str]) -> Vec<
         let vn = f.value_name.clone().unwrap_or_else(|| f.name.to_uppercase());
         let vn = if f.optional { format!("[{}]", vn) } else { format!("<{}>", vn) };
         let summary = f.doc.as_ref().map(|d| d.summary.clone());
-        let has_summary = |l: &str| summary.as_ref().map(|s| l.contains(s.as_str())).unwrap_or(true);
+        let has_summary = |l: &str| summary.as_ref().map(|s| l.contains(s.as_str())).unwrap_or(true) && f.doc.as_ref().map(|d| foreign_paragraph(l, d).is_none()).unwrap_or(true);
         if f.kind == Kind::Pos {
             let n = body.iter().filter(|l| is_list_line(l) && first_word(l) == vn && has_summary(l)).count();
             if n != 1 {
@@ -161,6 +178,9 @@ fn check_command(d: &Decl, path: &[String], v: &VariantM, body: &[&str]) -> Vec<
             } else if let Some(doc) = &sv.doc {
                 if !lines[0].contains(doc.summary.as_str()) {
                     errs.push(format!("list line of sub-command {:?} lacks its summary", sv.name));
+                }
+                if let Some(p) = foreign_paragraph(lines[0], doc) {
+                    errs.push(format!("list line of sub-command {:?} carries more than its summary: paragraph {:?}", sv.name, p));
                 }
             }
         }
